@@ -47,8 +47,8 @@ def main():
                 if isinstance(st, ast.ClassDef):
                     visit(st.body, prefix + st.name + ".")
                 elif isinstance(st, (ast.FunctionDef, ast.AsyncFunctionDef)):
-                    if alpha.local_names(st):
-                        rec[prefix + st.name] = alpha.shape_record(st)
+                    # functions without locals are recorded too (empty name lists): a local that appears later is known to be new
+                    rec[prefix + st.name] = alpha.shape_record(st) if alpha.local_names(st) else []
         visit(tree.body, "")
         if rec:
             refs[rel] = rec
